@@ -308,6 +308,11 @@ def main(chk: core.Check) -> int:
         core.ensure_driver()
         explore(chk, ["mem", "journal-symlink", "journal-open"], 160 if quick else 3000)
         explore(chk, ["rdb", "cached", "grpc(mem)", "grpc(journal)"], 12 if quick else 300, controlled=False, tag="-free")
+        # four threads issue the same compare-and-set at one instant, many times: a history with two True answers
+        # has no linearization (sampled; decides nothing by itself about SQLite's locking)
+        from verif.props import c04
+
+        c04.race_burst(chk, ["rdb", "cached", "journal-symlink"], 100 if quick else 2000)
     except core.DriverBroken as e:
         chk.broke("correspondence", {"driver": str(e)[:800]})
     chk.assumptions += [
